@@ -9,7 +9,7 @@ P = {
     "streams": [{
         "name": "proxy", "pkg": "./internal/handler/proxy", "test": "TestVerifC15",
         "overlay": {"internal/handler/proxy/zz_verif_c15_test.go": "c15/c15_test.go"},
-        "eval_module": "Run.Eval_C15", "check_term": "check pinned",
+        "eval_module": "Run.Eval_C15", "check_term": "check current",
         "n_quick": 1200, "n_thorough": 30000, "shard": 150,
         "findings": {1: "C15-F1", 2: "C15-F2", 3: "C15-F3", 4: "C15-F4", 5: "C15-F5"},
     }],
